@@ -115,4 +115,13 @@ __CPROVER_requires(WF_TABLE_PRE(table))
 __CPROVER_assigns(TL(table)->first, TL(table)->last, TL(table)->current_size)
 __CPROVER_ensures(TL(table)->current_size == 0 && TL(table)->max_size == __CPROVER_old(TL(table)->max_size) && TL(table)->elements == __CPROVER_old(TL(table)->elements))
 ;
+
+/* a getter that calls a comparison other than its own (see units/c17_table.py getu) */
+int contract_wrongcmp_bstr_cmp_nocase(const bstr *b1, const bstr *b2) __CPROVER_requires(0) __CPROVER_assigns() __CPROVER_ensures(1);
+int contract_wrongcmp_bstr_cmp_c_nocasenorzero(const bstr *b, const char *c) __CPROVER_requires(0) __CPROVER_assigns() __CPROVER_ensures(1);
+int contract_wrongcmp_bstr_cmp_mem_nocase(const bstr *b, const void *data, size_t len) __CPROVER_requires(0) __CPROVER_assigns() __CPROVER_ensures(1);
+int contract_wrongcmp_bstr_cmp_c_nocase(const bstr *b, const char *c) __CPROVER_requires(0) __CPROVER_assigns() __CPROVER_ensures(1);
+int contract_wrongcmp_bstr_cmp(const bstr *b1, const bstr *b2) __CPROVER_requires(0) __CPROVER_assigns() __CPROVER_ensures(1);
+int contract_wrongcmp_bstr_cmp_c(const bstr *b, const char *c) __CPROVER_requires(0) __CPROVER_assigns() __CPROVER_ensures(1);
+int contract_wrongcmp_bstr_cmp_mem(const bstr *b, const void *data, size_t len) __CPROVER_requires(0) __CPROVER_assigns() __CPROVER_ensures(1);
 #endif
